@@ -1,9 +1,261 @@
-"""C10 part (b) placeholder - filled in below."""
+"""C10 part (b): Django's composition tags compose with components by inlining.
+
+For every program of the C01 slot/fill profile (<= N nodes) and every *split* of one of its
+templates T (the page or a component template): a contiguous region R of any nodelist of T
+(top level, slot bodies, loop/if bodies, implicit component bodies, fill bodies) is moved
+  V1  into `{% block r %}R{% endblock %}` of a base template; child = `{% extends base %}`
+  V2  into the child:  base block holds other text, child overrides it with R
+  V3  half and half:   base block holds R1, child block = `{{ block.super }}` + R2
+  V4  into an included template: T[R := {% include "inc" %}], inc = R
+and the family must render exactly like the unsplit program (same output / same error class),
+in both context_behavior modes.  The unsplit program's own correctness is C01's business:
+this is a differential oracle with no hand-written expected value.
+Thorough additionally splits two templates of the same program.
+Excluded: regions that contain {% fill %} tags of a component body (a block around fill tags);
+whitespace-only component bodies (the "no fill" rule looks at text nodes, a block or include
+holding only whitespace is a different - undocumented - corner).
+"""
+from __future__ import annotations
+
+import json
+
+from mc import boot, par
+from mc.prog import CompSpec, Harness, Program, print_nodes, strip_markers
+from mc.proggen import Gen, Profile
+from mc.progrun import core_of, prog_size
+
+PAGE_CTX = {"t": True, "f": False}
+DATA = {"t": ("const", True), "f": ("const", False)}
+CORE = dict(use_if=False, use_alias=False, fill_text_mix=False, use_ws_body=False, slot_flags=("", "d"))
+
+
+def make_spec(name, template):
+    return CompSpec(name, template, DATA, ())
+
+
+def bounds(tier):
+    if tier == "thorough":
+        return {"N": 4, "profile": {"use_ws_body": False}, "double": 3}
+    return {"N": 3, "profile": {"use_ws_body": False}, "N_core": 4, "double": 0}
+
+
+def nodelists(nodes, path=()):
+    """yields (path, nodelist) for every nodelist inside `nodes` (path = indices to reach it)"""
+    yield path, nodes
+    for i, n in enumerate(nodes):
+        k = n[0]
+        if k == "If":
+            yield from nodelists(n[2], path + ((i, 2),))
+        elif k in ("For",):
+            yield from nodelists(n[3], path + ((i, 3),))
+        elif k in ("Slot", "Fill"):
+            yield from nodelists(n[4], path + ((i, 4),))
+        elif k == "Comp" and n[4]:
+            yield from nodelists(n[4], path + ((i, 4),))
+
+
+def replace_at(nodes, path, i, j, new_node):
+    """copy of `nodes` in which nodelist at `path` has [i:j) replaced by new_node"""
+    if not path:
+        return nodes[:i] + (new_node,) + nodes[j:]
+    (idx, field), rest = path[0], path[1:]
+    n = nodes[idx]
+    child = replace_at(n[field], rest, i, j, new_node)
+    n2 = n[:field] + (child,) + n[field + 1:]
+    return nodes[:idx] + (n2,) + nodes[idx + 1:]
+
+
+def has_fill(region):
+    return any(n[0] == "Fill" or (n[0] in ("If",) and has_fill(n[2])) or (n[0] == "For" and has_fill(n[3])) for n in region)
+
+
+def splits(template):
+    """yields (variant, main_nodes, {locmem name: source}) for every split of one template.
+    main_nodes: the template that replaces T (a tuple of nodes, possibly a single Raw node)"""
+    for path, nl in nodelists(template):
+        for i in range(len(nl)):
+            for j in range(i + 1, len(nl) + 1):
+                R = nl[i:j]
+                if has_fill(R):
+                    continue
+                r_src = print_nodes(R)
+                # V1: block in base holds R, child overrides nothing
+                base = replace_at(template, path, i, j, ("Raw", "{% block r %}" + r_src + "{% endblock %}"))
+                yield "V1", (("Raw", '{% extends "c10base" %}'),), {"c10base": print_nodes(base)}
+                # V2: override
+                base2 = replace_at(template, path, i, j, ("Raw", "{% block r %}XX {% endblock %}"))
+                yield "V2", (("Raw", '{% extends "c10base" %}{% block r %}' + r_src + "{% endblock %}"),), {"c10base": print_nodes(base2)}
+                # V3: block.super
+                k = 1 if len(R) >= 2 else len(R)
+                r1, r2 = print_nodes(R[:k]), print_nodes(R[k:])
+                base3 = replace_at(template, path, i, j, ("Raw", "{% block r %}" + r1 + "{% endblock %}"))
+                yield "V3", (("Raw", '{% extends "c10base" %}{% block r %}{{ block.super }}' + r2 + "{% endblock %}"),), {"c10base": print_nodes(base3)}
+                # V4: include
+                main4 = replace_at(template, path, i, j, ("Raw", '{% include "c10inc" %}'))
+                yield "V4", main4, {"c10inc": r_src}
+
+
+def render(h, prog, locmem):
+    boot.LOCMEM_TEMPLATES.clear()
+    boot.LOCMEM_TEMPLATES.update(locmem)
+    h.install(prog)
+    obs = h.render_page(prog)
+    boot.clear_render_registries()
+    if obs[0] == "ok":
+        return ("ok", strip_markers(obs[1]))
+    return obs[:2]
+
+
+def rename(locmem, suffix):
+    """second split of a program uses its own template names"""
+    out = {}
+    for k, v in locmem.items():
+        out[k + suffix] = v
+    return out
+
+
+def families(prog, double):
+    """yields (description, split program, locmem templates)"""
+    targets = [("page", prog.page)] + [(n, c.template) for n, c in prog.comps.items()]
+    singles = []
+    for tname, tpl in targets:
+        if not tpl:
+            continue
+        for variant, main, locmem in splits(tpl):
+            if tname == "page":
+                p2 = Program(main, prog.comps, prog.ctx)
+            else:
+                comps = dict(prog.comps)
+                comps[tname] = CompSpec(tname, main, prog.comps[tname].data, prog.comps[tname].probes)
+                p2 = Program(prog.page, comps, prog.ctx)
+            singles.append((tname, variant, main, locmem))
+            yield f"{tname}:{variant}", p2, locmem
+    if double:
+        # two different templates of the same program split at once (own template names)
+        for a in range(len(singles)):
+            ta, va, maina, la = singles[a]
+            for b in range(a + 1, len(singles)):
+                tb, vb, mainb, lb = singles[b]
+                if ta == tb or va != vb or va not in ("V2", "V3"):
+                    continue
+                lb2 = {k + "2": v for k, v in lb.items()}
+                mainb2 = tuple(("Raw", n[1].replace('"c10base"', '"c10base2"').replace('"c10inc"', '"c10inc2"')) if n[0] == "Raw" else n for n in mainb)
+                comps = dict(prog.comps)
+                page = prog.page
+                for tname, main in ((ta, maina), (tb, mainb2)):
+                    if tname == "page":
+                        page = main
+                    else:
+                        comps[tname] = CompSpec(tname, main, prog.comps[tname].data, prog.comps[tname].probes)
+                yield f"{ta}+{tb}:{va}", Program(page, comps, prog.ctx), {**la, **lb2}
+
+
+PREDICATE_FINDING = "predicate:extends-based-component-nested-in-extends-based-component"
+
+
+def nested_split_components(prog, mode, split_names):
+    """trigger predicate of the known finding (DESIGN 1.6): in the flattened program some instance of a
+    split component is rendered inside the output of an instance of a split component"""
+    from mc.progrun import model_outcome
+
+    exp, it = model_outcome(prog, mode)  # nesting is recorded up to the point of a model error, too
+    return any(a in split_names and b in split_names for a, b in it.nested_pairs)
+
+
+def classify(desc, prog, mode):
+    """identity of a composition failure.  Failures of the block-override variants (V2/V3) on component
+    templates whose component is nested inside (another) split component share ONE identity - the trigger
+    predicate of the known finding; everything else is identified by split + program core."""
+    targets, variant = desc.split(":")
+    names = set(t for t in targets.split("+") if t != "page")
+    if variant in ("V2", "V3") and names and nested_split_components(prog, mode, names):
+        return f"{mode}:{PREDICATE_FINDING}:{variant}"
+    return f"{mode}:{desc}:{core_of(prog)}"
+
+
+def worker(w, W, payload):
+    pfkw, N, skip, mode, double = payload
+    boot.set_components_setting(context_behavior=mode)
+    gen = Gen(Profile(**pfkw))
+    h = Harness()
+    agg = par.Agg()
+    i = -1
+    for prog in gen.programs(N, make_spec, PAGE_CTX):
+        i += 1
+        if i % W != w:
+            continue
+        size_ = prog_size(prog)
+        if skip and size_ <= skip:
+            continue
+        flat = render(h, prog, {})
+        agg.transitions += 1
+        nfam = 0
+        for desc, p2, locmem in families(prog, double and size_ <= double):
+            nfam += 1
+            agg.states += 1
+            got = render(h, p2, locmem)
+            agg.transitions += 1
+            agg.validated += 1
+            agg.expected[desc.split(":")[-1]] += 1
+            if got[0] == "ok":
+                agg.observe(got[1])
+            if got != flat:
+                ident = classify(desc, prog, mode)
+                if PREDICATE_FINDING in ident:
+                    agg.extra["attributed_by_predicate"] += 1
+                agg.fail(ident,
+                         f"[{mode}] split {desc}: family renders {got}, the flattened program renders {flat}",
+                         {"part": "compose", "mode": mode, "desc": desc, "flat": prog.to_json(mode), "split": p2.to_json(mode), "templates": locmem,
+                          "spec": {"page": prog.page, "comps": {n: c.template for n, c in prog.comps.items()}}})
+            if agg.states == 30 and w == 2:
+                agg.sample({"mode": mode, "split": desc, "program": p2.to_json(mode), "templates": locmem, "flattened": prog.to_json(mode)})
+        if nfam:
+            agg.nontrivial += nfam
+    boot.LOCMEM_TEMPLATES.clear()
+    h.uninstall()
+    return agg
 
 
 def run_part(ctx):
-    pass
+    ev = ctx.ev
+    b = bounds(ctx.tier)
+    parts = [("full", b["profile"], b["N"], 0)]
+    if b.get("N_core"):
+        parts.append(("core", CORE, b["N_core"], b["N"]))
+    for label_, pfkw, N, skip in parts:
+        for mode in ("django", "isolated"):
+            agg = par.run_sharded(worker, (pfkw, N, skip, mode, b["double"]))
+            ev.add_part(f"compose_{label_}_N{N}_{mode}", states=agg.states, transitions=agg.transitions, validated=agg.validated, nontrivial=agg.nontrivial,
+                        observed_distinct=len(agg.observed), expected=agg.expected, bound={"N": N, "profile": label_, "double_splits_up_to_size": b["double"]},
+                        samples=agg.samples[:1])
+            ctx.fnd.merge_reports(sorted(agg.failures, key=lambda f: (len(json.dumps(f[2]["split"])), f[0])))
+            if agg.failures_dropped:
+                ev.extra["failures_dropped"] = ev.extra.get("failures_dropped", 0) + agg.failures_dropped
+    boot.set_components_setting(context_behavior="django")
 
 
 def replay(ctx, case):
-    return True
+    from mc.progrun import retuple
+
+    mode = case["mode"]
+    boot.set_components_setting(context_behavior=mode)
+    spec = case["spec"]
+    prog = Program(retuple(spec["page"]), {n: make_spec(n, retuple(t)) for n, t in spec["comps"].items()}, dict(PAGE_CTX))
+    h = Harness()
+    flat = render(h, prog, {})
+    ok = True
+    for desc, p2, locmem in families(prog, True):
+        if desc != case["desc"]:
+            continue
+        got = render(h, p2, locmem)
+        print("split:", desc)
+        print("page:", p2.page_source())
+        for n, c in p2.comps.items():
+            print(f"comp {n}:", c.source())
+        for k, v in locmem.items():
+            print(f"template {k}:", v)
+        print("family renders:   ", got)
+        print("flattened renders:", flat, " (page:", prog.page_source(), {n: c.source() for n, c in prog.comps.items()}, ")")
+        ok = ok and got == flat
+    h.uninstall()
+    return ok
